@@ -196,6 +196,25 @@ func c11Run(c *core.C, idx int) {
 	lintCfg := "use:\n  - STANDARD\n  - COMMENTS\n  - UNARY_RPC\n"
 	breakingCfg := "use:\n  - " + []string{"FILE", "PACKAGE", "WIRE_JSON", "WIRE"}[c.Rand.IntN(4)] + "\n"
 	run.WriteTree(wsDir, s.WorkspaceFiles(v.R, gen.WorkspaceOpts{Version: "v2", Lint: lintCfg, Breaking: breakingCfg}))
+	// bystanders that are no module content but sort between a directory name and "<name>/": next to every
+	// module directory and next to its first package directory (archives are unpacked into a memory bucket,
+	// whose walk order sees them; a directory input never does)
+	{
+		by := map[string]string{}
+		for _, m := range s.Modules {
+			by[m.Dir+"-docs/notes.txt"] = "notes\n"
+			by[m.Dir+".md"] = "# about " + m.Dir + "\n"
+			if len(m.Files) > 0 {
+				if i := strings.Index(m.Files[0].Path, "/"); i > 0 {
+					top := m.Files[0].Path[:i]
+					by[m.Dir+"/"+top+"-notes/readme.txt"] = "readme\n"
+					by[m.Dir+"/"+top+".txt"] = "txt\n"
+				}
+			}
+		}
+		run.WriteTree(wsDir, by)
+		c.Count("bystander_files", len(by))
+	}
 	env := run.BufEnv(filepath.Join(c.Tmp, "home"), nil)
 	o := run.Buf(wsDir, env, nil, "build", "-o", "-#format=binpb")
 	c.Eval(1)
